@@ -71,6 +71,8 @@ func runC16(p *Program, r *Report) {
 	checkTopRowIsARow(p, r, "R16e")
 	r.Rule("R16f", "THE-MAXIMUM-IS-A-POSITION: a value is compared with the result of maxPositionAtRow / maxPossiblePosAtRow (the biggest position of a row) only inclusively: x <= max inside, x > max outside")
 	checkMaximumIsAPosition(p, r, "R16f", 6)
+	r.Rule("R16g", "ROW-ZERO-ENDS-BEFORE-ONE-SHIFTED: a position (by role) is compared with 1<<rows only strictly: pos < 1<<rows on row 0, pos >= 1<<rows above it")
+	checkRowZeroTestStrict(p, r, "R16g")
 
 	// R16b
 	pp := p.Func("ProofPositions")
